@@ -229,7 +229,7 @@ def job_real_labels():
 def jobs(tier):
     q = tier == 'quick'
     js = [job_lattice(), job_real_labels()]
-    wins = [(3, 4), (7, 10)] if q else [(1, 2, 3, 4), (5, 6, 7, 8), (8, 9, 10, 11), (3, 4, 7, 10), (2, 5, 9, 11)]
+    wins = [(3, 4), (7, 10), (4, 7)] if q else [(1, 2, 3, 4), (5, 6, 7, 8), (8, 9, 10, 11), (3, 4, 7, 10), (2, 5, 9, 11), (0, 4, 7, 11)]
     for w in wins:
         js.append(job_lattice(True, w))
     return js
